@@ -556,8 +556,8 @@ package mqtt
 //@ requires len(config.UserName) <= 65535 && len(config.Password) <= 65535 && len(config.Will.Topic) <= 65535 && len(config.Will.Message) <= 65535
 //@ requires st_has(c.persistence, 0) ==> st_len(c.persistence, 0) <= 65535
 //@ modifies wire, wire_len, wclosed, wdl, rdl, c.InNewSession.v, cpos
-//@ ensures err == nil ==> conn != nil && bufr != nil && conn != boxed(connSignal, 0) && conn != boxed(connSignal, 1) && rx_src(bufr) == conn && rx_bufref(bufr) > 0 && fresh_ref(rx_bufref(bufr)) && rx_size(bufr) == readBufSize
-//@ ensures err != nil ==> conn == nil && bufr == nil
+//@ ensures[C18,C12,C10] err == nil ==> conn != nil && bufr != nil && conn != boxed(connSignal, 0) && conn != boxed(connSignal, 1) && rx_src(bufr) == conn && rx_bufref(bufr) > 0 && fresh_ref(rx_bufref(bufr)) && rx_size(bufr) == readBufSize
+//@ ensures[C18,C12] err != nil ==> conn == nil && bufr == nil
 
 // connect: installs a new connection. Resends happen while both sequence tokens and the
 // write token are held and after connection control was handed back (so Close can interrupt).
